@@ -1146,7 +1146,9 @@ func (se *stanzaEncoder) EncodeToken(t xml.Token) error {
 				tok.Name.Space = se.ns
 			}
 			var foundID, foundFrom bool
-			attrs := tok.Attr[:0]
+			// A new slice: filtering in place would rewrite the attributes of the
+			// caller's own start element value.
+			attrs := make([]xml.Attr, 0, len(tok.Attr)+2)
 			for _, attr := range tok.Attr {
 				switch attr.Name.Local {
 				case "id":
@@ -1188,7 +1190,7 @@ func (se *stanzaEncoder) EncodeToken(t xml.Token) error {
 
 		// For all start elements, regardless of depth, prevent duplicate xmlns
 		// attributes. See https://mellium.im/issue/75
-		attrs := tok.Attr[:0]
+		attrs := make([]xml.Attr, 0, len(tok.Attr))
 		for _, attr := range tok.Attr {
 			if attr.Name.Local == "xmlns" && tok.Name.Space != "" {
 				continue
